@@ -14,7 +14,8 @@ RULE = ("operation histories (5-40 ops quick, up to 200 thorough) over 1-3 bucke
         "(non-empty bucket, preceded by the limit-1 read that identifies its target), delete(live id), delete(id "
         "that never existed), occasionally delete + re-create of the bucket; timestamps from a pool of 6 instants and end instants from a pool (ties, nesting, "
         "zero-length, decreasing order, delete-then-upsert, delete-max-id-then-insert, identical twins with different ids, "
-        "durations beyond a day); after EVERY operation the "
+        "durations beyond a day); a third of the histories contain a burst of 3-7 operations that all concern the newest event of one "
+        "bucket (replace_last, delete the newest / the highest id, inserts placed before / after / at the newest instant, the newest moved back); after EVERY operation the "
         "whole observable state of every bucket (listing multiset + order, limit-1, lookup of every id ever seen, "
         "count) is compared with a dict model (in a third of the cases 'quiet': per-op comparison through the writer "
         "connection's own uncommitted view by uid, full API comparison once at the end - an API read commits on the lazy "
@@ -85,7 +86,48 @@ def gen_case(rng, ctx):
             ops.append(dict(op="delete_missing", b=b))
         else:
             ops.append(dict(op="recreate_bucket", b=b))     # whatever the store remembers about the old bucket must go
+    if rng.random() < 0.35:
+        # a burst of operations that all concern the NEWEST event of one bucket (what a heartbeat client does, plus
+        # deletions and back-filled inserts in between): replace_last, delete the newest / the highest id, insert
+        # something older / newer / at the same instant, move the newest back in time
+        b = rng.randrange(nb)
+        burst = []
+        for _ in range(rng.randrange(3, 8)):
+            r = rng.random()
+            if r < 0.3:
+                burst.append(dict(op="replace_last", b=b, ev=ev(), rel=rng.choice([None, None, "newer", "older"])))
+            elif r < 0.5:
+                burst.append(dict(op="delete", b=b, pick=-2))
+            elif r < 0.6:
+                burst.append(dict(op="delete", b=b, pick=-1))
+            elif r < 0.9:
+                burst.append(dict(op="insert", b=b, ev=ev(), rel=rng.choice(["older", "older", "newer", "same"])))
+            else:
+                burst.append(dict(op="replace", b=b, pick=-2, ev=ev(), rel="older"))
+        at = rng.randrange(0, len(ops) + 1)
+        ops[at:at] = burst
     return dict(backend=backend, nb=nb, ops=ops, quiet=rng.random() < 0.35)
+
+
+def _pick(pick, m):
+    """-1: the highest id; -2: the newest event (latest start, highest id among equals); otherwise by position"""
+    live = sorted(m)
+    if pick == -2:
+        return max(live, key=lambda i: (m[i][0], i))
+    return live[-1] if pick < 0 else live[pick % len(live)]
+
+
+def _rel(op, m, unit=1000):
+    """the event of an operation, placed relative to the newest event of the bucket when the operation says so"""
+    spec = op["ev"]
+    rel = op.get("rel")
+    if rel and m:
+        newest = max(t[0] for t in m.values())
+        uidn = spec["data"].get("uid", 1)
+        ts = {"older": newest - (1 + uidn % 5) * 60_000_000, "newer": newest + (1 + uidn % 5) * 60_000_000, "same": newest}[rel]
+        if ts >= 0:
+            spec = dict(spec, ts=ts)
+    return spec
 
 
 # ------------------------------------------------------------------ model + comparison
@@ -185,6 +227,8 @@ def run_case(case, ctx):
             where = f"after op#{k} {op['op']}"
             live = sorted(m)
             kind = op["op"]
+            if op.get("rel"):
+                op = dict(op, ev=_rel(op, m))
             if kind == "insert":
                 r = b.insert(mk_event(op["ev"]))
                 if r is None or r.id is None:
@@ -216,7 +260,7 @@ def run_case(case, ctx):
             elif kind == "replace":
                 if not live:
                     continue
-                i = live[op["pick"] % len(live)]
+                i = _pick(op["pick"], m)
                 b.replace(i, mk_event(op["ev"]))
                 m[i] = _want(op["ev"])
             elif kind == "replace_last":
@@ -235,7 +279,7 @@ def run_case(case, ctx):
             elif kind == "delete":
                 if not live:
                     continue
-                i = live[-1] if op["pick"] < 0 else live[op["pick"] % len(live)]
+                i = _pick(op["pick"], m)
                 b.delete(i)
                 del m[i]
             elif kind == "recreate_bucket":
